@@ -11,7 +11,7 @@ LEVEL = "exploration"
 RULE = (
     "Hypothesis atom tables (generator of C09: altlocs, insertion codes, 1-3 models, 1-3 chains, charges) pushed "
     "outside PDB limits by drawn modifications - multi-character chain ids, residue numbers shifted above 9999, "
-    "serials shifted above 99999, or none (already fitting) - emitted as mmCIF by the harness and read with "
+    "serials shifted above 99999, a chain made non-contiguous (its last residue listed after the other chains), or none (already fitting) - emitted as mmCIF by the harness and read with "
     "parse_cif_atoms; the same tables as PDB (always fitting). Oversize constructions built as compact one-atom-per-"
     "residue tables: 63-70 chains, 10000+ residues in one chain (quick) and 100000+ atoms (thorough). Oracle: own "
     "feasibility decision (certainly feasible: <=62 chains, atoms+TER <=99999, <=9999 residues per chain; certainly "
@@ -34,6 +34,22 @@ def modify(atoms, mod):
     for a in out:
         if a["chain"] not in chains:
             chains.append(a["chain"])
+    if mod.get("interleave") and len(chains) >= 2:
+        # non-contiguous chain: the last residue of the first chain is listed after all other chains
+        # (as waters/ligands sharing a polymer's chain id are in real files)
+        res = []
+        for a in out:
+            if a["chain"] == chains[0] and (a["resseq"], a["icode"]) not in res:
+                res.append((a["resseq"], a["icode"]))
+        if len(res) >= 2:
+            last = res[-1]
+            moved = []
+            for m in sorted({a["model"] for a in out}):
+                block = [a for a in out if a["model"] == m]
+                tail = [a for a in block if a["chain"] == chains[0] and (a["resseq"], a["icode"]) == last]
+                rest = [a for a in block if not (a["chain"] == chains[0] and (a["resseq"], a["icode"]) == last)]
+                moved += rest + tail
+            out = moved
     if mod.get("long_chains"):
         m = {c: (c + mod["long_chains"]) for c in chains}
         for a in out:
@@ -205,7 +221,7 @@ def classify(case):
     atoms = modify(case["atoms"], case.get("mod", {}))
     labs = []
     mod = case.get("mod", {})
-    for k in ("long_chains", "number_shift", "serial_shift"):
+    for k in ("long_chains", "number_shift", "serial_shift", "interleave"):
         if mod.get(k):
             labs.append(k)
     if len({a["model"] for a in atoms}) >= 2:
@@ -224,6 +240,7 @@ def st_cases():
         "long_chains": st.sampled_from(["", "", "A", "x1", "LONG"]),
         "number_shift": st.sampled_from([0, 0, 10000, 99000]),
         "serial_shift": st.sampled_from([0, 0, 100000, 12345678]),
+        "interleave": st.booleans(),
     })
     return st.fixed_dictionaries({"atoms": atomtab.st_tables(max_residues=4, max_atoms=5), "mod": mod, "null": st.sampled_from(["?", "."])})
 
